@@ -4,7 +4,7 @@
 #   tools/seedtest.sh <patch.diff> Cxx [Cyy ...]        env: SEEDTIER=quick|thorough
 set -u
 PATCH=$(readlink -f "$1"); shift
-ROOT=/tmp/vseed
+ROOT=${VSEED_ROOT:-/tmp/vseed}
 mkdir -p $ROOT
 rsync -a --delete --exclude replays --exclude evidence /verif/ $ROOT/verif/
 if [ ! -d $ROOT/repo ]; then git -C /repo worktree add -q --detach $ROOT/repo HEAD; fi
